@@ -8,6 +8,7 @@ import LasModel.Driver.FileD
 import LasModel.Driver.ReaderD
 import LasModel.Driver.ScalD
 import LasModel.Driver.ConvD
+import LasModel.Driver.XdD
 namespace LasModel.Driver
 
 def dispatch (line : String) : String :=
@@ -21,6 +22,7 @@ def dispatch (line : String) : String :=
   | "rd" :: rest => (ReaderD.handle rest).getD "bad-op"
   | "sc" :: rest => (ScalD.handle rest).getD "bad-op"
   | "cv" :: rest => (ConvD.handle rest).getD "bad-op"
+  | "xd" :: rest => (XdD.handle rest).getD "bad-op"
   | _ => "bad-op"
 
 partial def loop (h : IO.FS.Stream) (out : IO.FS.Stream) : IO Unit := do
